@@ -83,3 +83,72 @@ package cdi
 //@   loop 2 invariant forall(j, 0 <= j && j < len(devices), IsQualifiedName(devices[j]))
 //@   loop 2 invariant base(#slice) != base(devices) && base(#slice) != base(keys)
 //@   loop 2 invariant forall(i, 0 <= i && i < len(#slice), trig(#slice[i], #slice[i] == atloop(#slice[i])))
+
+// ---------------------------------------------------------------- container-edits.go, device.go, spec.go (C05)
+// WellFormed per SPEC.md, transcribed from the property statement. `c` ranges over *cdi.ContainerEdits
+// as the decoder can produce it: any list may contain nil entries.
+
+//@ pred EnvEntryOK(v string) = len(v) > 0 && v[0] != '=' && !noByte(v, '=')
+//@ pred EnvOK(env []string) = forall(i, 0 <= i && i < len(env), EnvEntryOK(env[i]))
+//@ pred NodeTypeOK(t string) = t == "" || t == "b" || t == "c" || t == "u" || t == "p"
+//@ pred permChar(c int) = c == 'r' || c == 'w' || c == 'm'
+//@ pred NodeOK(n *cdi.DeviceNode) = n.Path != "" && NodeTypeOK(n.Type) &&
+//@        forall(i, 0 <= i && i < len(n.Permissions), permChar(n.Permissions[i]))
+//@ pred HookNameOK(s string) = s == "prestart" || s == "createRuntime" || s == "createContainer" ||
+//@        s == "startContainer" || s == "poststart" || s == "poststop"
+//@ pred HookOK(h *cdi.Hook) = HookNameOK(h.HookName) && h.Path != "" && EnvOK(h.Env)
+//@ pred MountOK(m *cdi.Mount) = m.HostPath != "" && m.ContainerPath != ""
+//@ pred RdtOK(r *cdi.IntelRdt) = len(r.ClosID) < 4096 && r.ClosID != "." && r.ClosID != ".." &&
+//@        noByte(r.ClosID, '/') && noByte(r.ClosID, 10)
+//@ opaque pred EditsOK(c *cdi.ContainerEdits) = EnvOK(c.Env) &&
+//@        forall(i, 0 <= i && i < len(c.DeviceNodes), c.DeviceNodes[i] != nil && NodeOK(c.DeviceNodes[i])) &&
+//@        forall(i, 0 <= i && i < len(c.Hooks), c.Hooks[i] != nil && HookOK(c.Hooks[i])) &&
+//@        forall(i, 0 <= i && i < len(c.Mounts), c.Mounts[i] != nil && MountOK(c.Mounts[i])) &&
+//@        (c.IntelRdt == nil || RdtOK(c.IntelRdt))
+//@ pred EditsEmpty(c *cdi.ContainerEdits) = len(c.Env) == 0 && len(c.DeviceNodes) == 0 && len(c.Hooks) == 0 &&
+//@        len(c.Mounts) == 0 && len(c.AdditionalGIDs) == 0 && c.IntelRdt == nil
+
+//@ func ValidateEnv(env []string) (err error)
+//@   pure
+//@   ensures[C05] iff(err == nil, EnvOK(env))
+//@   loop 1 invariant forall(k, 0 <= k && k < #i, EnvEntryOK(env[k]))
+
+//@ func (d *DeviceNode) Validate() (err error)
+//@   pure
+//@   requires d != nil && d.DeviceNode != nil
+//@   ensures[C05] iff(err == nil, NodeOK(d.DeviceNode))
+//@   loop 1 invariant forall(k, 0 <= k && k < #pos, permChar(#str[k]))
+
+//@ func (h *Hook) Validate() (err error)
+//@   pure
+//@   requires h != nil && h.Hook != nil
+//@   ensures[C05] iff(err == nil, HookOK(h.Hook))
+
+//@ func (m *Mount) Validate() (err error)
+//@   pure
+//@   requires m != nil && m.Mount != nil
+//@   ensures[C05] iff(err == nil, MountOK(m.Mount))
+
+//@ func (i *IntelRdt) Validate() (err error)
+//@   pure
+//@   requires i != nil && i.IntelRdt != nil
+//@   ensures[C05] iff(err == nil, RdtOK(i.IntelRdt))
+
+//@ func ValidateIntelRdt(i *cdi.IntelRdt) (err error)
+//@   pure
+//@   requires i != nil
+//@   ensures[C05] iff(err == nil, RdtOK(i))
+
+//@ func (e *ContainerEdits) Validate() (err error)
+//@   pure
+//@   reveal EditsOK
+//@   ensures[C05] implies(e == nil || e.ContainerEdits == nil, err == nil)
+//@   ensures[C05] implies(e != nil && e.ContainerEdits != nil, iff(err == nil, EditsOK(e.ContainerEdits)))
+//@   loop 1 invariant forall(k, 0 <= k && k < #i, #slice[k] != nil && NodeOK(#slice[k]))
+//@   loop 2 invariant forall(k, 0 <= k && k < #i, #slice[k] != nil && HookOK(#slice[k]))
+//@   loop 3 invariant forall(k, 0 <= k && k < #i, #slice[k] != nil && MountOK(#slice[k]))
+
+//@ func (e *ContainerEdits) isEmpty() (r bool)
+//@   pure
+//@   requires e == nil || e.ContainerEdits != nil
+//@   ensures[C05] r == (e != nil && EditsEmpty(e.ContainerEdits))
